@@ -24,18 +24,20 @@
 EXTENDS Naturals, Sequences, TLC
 
 CONSTANTS NonceLen, MaxSent, MaxWrite, Bufs, Shorts,
-          Glitches     \* subset of {"dataerr", "temperr", "shortwrite", "eofdata"}
+          Glitches     \* subset of {"dataerr", "temperr", "shortwrite", "eofdata", "refusewrite"}
 
 VARIABLES nsent, wn, wks, wire, closed, rn, rks, rbad, delivered, under,
           rg,          \* armed read glitch: "none", "dataerr", "temperr"
           wg,          \* armed short write
+          wr,          \* armed refusal: the next write of the connection is refused WHOLE (0 bytes, an error,
+                       \* nothing on the wire) - at any write index, the very first included; the caller goes on
           eofd,        \* the last bytes come together with io.EOF
           nglitch,     \* glitches armed so far (one per behaviour)
           wdead,       \* the writer got an error: it writes no more
           reof,        \* the reader has seen io.EOF
           op
-vars == <<nsent, wn, wks, wire, closed, rn, rks, rbad, delivered, under, rg, wg, eofd, nglitch, wdead, reof, op>>
-View == <<nsent, wn, wks, wire, closed, rn, rks, rbad, delivered, under, rg, wg, eofd, nglitch, wdead, reof>>
+vars == <<nsent, wn, wks, wire, closed, rn, rks, rbad, delivered, under, rg, wg, wr, eofd, nglitch, wdead, reof, op>>
+View == <<nsent, wn, wks, wire, closed, rn, rks, rbad, delivered, under, rg, wg, wr, eofd, nglitch, wdead, reof>>
 
 Min(a, b) == IF a < b THEN a ELSE b
 Sent == [i \in 1..nsent |-> i]
@@ -43,25 +45,34 @@ IsPrefix(s, t) == Len(s) <= Len(t) /\ \A i \in 1..Len(s) : s[i] = t[i]
 NonceUnit == [k |-> "nonce", pos |-> 0, ks |-> 0]
 
 Init == /\ nsent = 0 /\ wn = FALSE /\ wks = 0 /\ wire = <<>> /\ closed = FALSE /\ rn = FALSE /\ rks = 0
-        /\ rbad = FALSE /\ delivered = <<>> /\ under = 0 /\ rg = "none" /\ wg = FALSE /\ eofd = FALSE
+        /\ rbad = FALSE /\ delivered = <<>> /\ under = 0 /\ rg = "none" /\ wg = FALSE /\ wr = FALSE /\ eofd = FALSE
         /\ nglitch = 0 /\ wdead = FALSE /\ reof = FALSE /\ op = [name |-> "init"]
 
+\* A write that is refused whole leaves NOTHING behind: no nonce on the wire, no key-stream position spent, the
+\* Write reports (0, error); what the caller writes afterwards - the same bytes again or others - arrives like
+\* any other write.  (That is what the statement's first sentence asks for: the bytes of the writes that
+\* reported success arrive unmodified, once, in order.)
 Write(k) ==
   /\ ~closed /\ ~wdead
   /\ nsent + k <= MaxSent
-  /\ LET short == wg /\ k >= 2                 \* the underlying Write takes only a part and reports an error
-         a == IF short THEN k \div 2 ELSE k
-         hdr == IF wn THEN <<>> ELSE [i \in 1..NonceLen |-> NonceUnit]
-         body == [i \in 1..a |-> [k |-> "data", pos |-> nsent + i, ks |-> wks + i]]
-     IN /\ wire' = wire \o hdr \o body
-        /\ nsent' = nsent + a
-        /\ wg' = (wg /\ ~short) /\ wdead' = short
-        /\ op' = [name |-> "write", k |-> k, n |-> a, nonce |-> ~wn, short |-> short]
-  /\ wn' = TRUE /\ wks' = wks + k              \* the key stream advances over the whole input
+  /\ IF wr /\ (k > 0 \/ ~wn)                  \* (an empty write behind the nonce does not reach the connection)
+       THEN /\ wr' = FALSE
+            /\ op' = [name |-> "write", k |-> k, n |-> 0, nonce |-> ~wn, short |-> FALSE, refused |-> TRUE]
+            /\ UNCHANGED <<wire, nsent, wg, wdead, wn, wks>>
+       ELSE /\ LET short == wg /\ k >= 2                 \* the underlying Write takes only a part and reports an error
+                   a == IF short THEN k \div 2 ELSE k
+                   hdr == IF wn THEN <<>> ELSE [i \in 1..NonceLen |-> NonceUnit]
+                   body == [i \in 1..a |-> [k |-> "data", pos |-> nsent + i, ks |-> wks + i]]
+               IN /\ wire' = wire \o hdr \o body
+                  /\ nsent' = nsent + a
+                  /\ wg' = (wg /\ ~short) /\ wdead' = short
+                  /\ op' = [name |-> "write", k |-> k, n |-> a, nonce |-> ~wn, short |-> short, refused |-> FALSE]
+            /\ wn' = TRUE /\ wks' = wks + k              \* the key stream advances over the whole input
+            /\ wr' = wr
   /\ UNCHANGED <<closed, rn, rks, rbad, delivered, under, rg, eofd, nglitch, reof>>
 
 Close == /\ ~closed /\ wn /\ closed' = TRUE /\ op' = [name |-> "close"]
-         /\ UNCHANGED <<nsent, wn, wks, wire, rn, rks, rbad, delivered, under, rg, wg, eofd, nglitch, wdead, reof>>
+         /\ UNCHANGED <<nsent, wn, wks, wire, rn, rks, rbad, delivered, under, rg, wg, wr, eofd, nglitch, wdead, reof>>
 
 Rel(b, avail) == IF b = 0 THEN "zero" ELSE IF b < avail THEN "lt" ELSE IF b = avail THEN "eq" ELSE "gt"
 Cap(avail, b) == IF under = 0 THEN Min(b, avail) ELSE Min(Min(b, avail), under)
@@ -90,17 +101,18 @@ Read(b) ==
                         avail |-> avail, rel |-> Rel(b, avail), left |-> avail - n,
                         glitch |-> IF temp THEN "temperr" ELSE IF derr THEN "dataerr" ELSE "none",
                         eof |-> eof]
-  /\ UNCHANGED <<nsent, wn, wks, closed, under, wg, eofd, nglitch, wdead>>
+  /\ UNCHANGED <<nsent, wn, wks, closed, under, wg, wr, eofd, nglitch, wdead>>
 
 Short(k) == /\ k # under /\ under' = k /\ op' = [name |-> "short", k |-> k]
-            /\ UNCHANGED <<nsent, wn, wks, wire, closed, rn, rks, rbad, delivered, rg, wg, eofd, nglitch, wdead, reof>>
+            /\ UNCHANGED <<nsent, wn, wks, wire, closed, rn, rks, rbad, delivered, rg, wg, wr, eofd, nglitch, wdead, reof>>
 
 \* a glitch of the underlying connection is armed (one per behaviour, once the nonce is through)
 Glitch(kind) ==
   /\ kind \in Glitches /\ nglitch = 0 /\ ~reof
-  /\ \/ kind \in {"dataerr", "temperr"} /\ rn /\ rg' = kind /\ UNCHANGED <<wg, eofd>>
-     \/ kind = "shortwrite" /\ wn /\ ~closed /\ wg' = TRUE /\ UNCHANGED <<rg, eofd>>
-     \/ kind = "eofdata" /\ ~closed /\ eofd' = TRUE /\ UNCHANGED <<rg, wg>>
+  /\ \/ kind \in {"dataerr", "temperr"} /\ rn /\ rg' = kind /\ UNCHANGED <<wg, wr, eofd>>
+     \/ kind = "shortwrite" /\ wn /\ ~closed /\ wg' = TRUE /\ UNCHANGED <<rg, wr, eofd>>
+     \/ kind = "refusewrite" /\ ~closed /\ wr' = TRUE /\ UNCHANGED <<rg, wg, eofd>>   \* (also in front of the first write)
+     \/ kind = "eofdata" /\ ~closed /\ eofd' = TRUE /\ UNCHANGED <<rg, wg, wr>>
   /\ nglitch' = 1
   /\ op' = [name |-> "glitch", kind |-> kind]
   /\ UNCHANGED <<nsent, wn, wks, wire, closed, rn, rks, rbad, delivered, under, wdead, reof>>
